@@ -74,7 +74,7 @@ def gen_cases(tier, rng):
             for sd in self_dtypes(cls):
                 if d in BITWISE and sd.startswith("float"):
                     continue
-                for kind in (["none"] if unary else ["field", "array", "scalar"]):
+                for kind in (["none"] if unary else ["field", "array", "scalar", "pyint", "pyfloat"]):
                     for od in (["int32"] if unary else other_dtypes(d)):
                         for sname in ("mixed", "empty", "pos"):
                             for oname in (["mixed"] if unary else ["mixed", "pos"]):
@@ -177,6 +177,12 @@ def impl(case):
     elif kind == "scalar":
         other = odata.dtype.type(odata[1]) if len(odata) > 1 else odata.dtype.type(3)
         other_raw = other
+    elif kind == "pyint":      # a plain Python int: numpy treats it as a weak scalar (no promotion of narrow dtypes)
+        other = [10, -7, 3][case.get("_n", 0) % 3]
+        other_raw = other
+    elif kind == "pyfloat":
+        other = [2.5, -0.5][case.get("_n", 0) % 2]
+        other_raw = other
     else:
         other, other_raw = None, None
     with np.errstate(all="ignore"):
@@ -194,6 +200,7 @@ def impl(case):
     out["sdata"], out["odata"] = tohex(sdata), (tohex(np.asarray(other_raw)) if other_raw is not None else None)
     out["sdt"], out["odt"] = str(sdata.dtype), (str(np.asarray(other_raw).dtype) if other_raw is not None else None)
     out["scalar"] = kind == "scalar"
+    out["py"] = other_raw if kind in ("pyint", "pyfloat") else None
     if case.get("setitem") and df is not None:
         df["r"] = gots[0]
         out["stored"] = {"dtype": str(df["r"].data[:].dtype), "data": tohex(df["r"].data[:])}
@@ -212,14 +219,17 @@ def numpy_apply(io, sym, order):
     import warnings
     warnings.simplefilter("ignore")
     a = np.frombuffer(bytes.fromhex(io["sdata"]), dtype=io["sdt"])
-    if io["odata"] is not None:
+    if io.get("py") is not None:
+        b = io["py"]
+    elif io["odata"] is not None:
         b = np.frombuffer(bytes.fromhex(io["odata"]), dtype=io["odt"])
         if io["scalar"]:
             b = b[0]
     else:
         b = None
     args = [a if k == 0 else b for k in order]
-    fn = {"np.divmod": np.divmod, "np.logical_not": np.logical_not}.get(sym) or NP_SYMS[sym]
+    mod, _, name = sym.partition(".")
+    fn = getattr(np if mod == "np" else operator, name)     # whatever symbol the regenerated table names
     with np.errstate(all="ignore"):
         r = fn(*args)
     rs = list(r) if isinstance(r, tuple) else [r]
@@ -242,14 +252,48 @@ def same(res, want):
     return len(res) == len(want) and all(r["dtype"] == w["dtype"] and r["data"] == w["data"] for r, w in zip(res, want))
 
 
-def check_spec(case, io, mode):
-    if "err" in io:
-        return f"operator raised {io['err']}: {io.get('msg')}"
-    sym, order = SPEC[case["dunder"]]
+def numpy_outcome(case, io, sym, order):
+    """numpy's own result on the underlying arrays: ('ok', results) or ('err', error tag)"""
     try:
-        want = numpy_apply(io, sym, order)
-    except Exception as e:  # numpy itself rejects the operand pair: then the field operator must have raised too
-        return f"numpy raises {type(e).__name__} but the field operator returned a value"
+        return "ok", numpy_apply(io, sym, order)
+    except OverflowError:
+        return "err", "overflow_error"
+    except TypeError:
+        return "err", "type_error"
+    except ValueError:
+        return "err", "value_error"
+
+
+def operands_of(case):
+    """the operands as the worker built them (needed when the field operator raised and returned no operand dump)"""
+    import numpy as np
+    sdata = arr(np, case["self"], case["sdtype"], case.get("inf"))
+    odata = arr(np, "empty" if len(sdata) == 0 else case["other"], case["odtype"], case.get("inf"))
+    io = {"sdata": tohex(sdata), "sdt": str(sdata.dtype), "scalar": case["kind"] == "scalar", "py": None,
+          "odata": None, "odt": None}
+    k = case["kind"]
+    if k in ("field", "array"):
+        io["odata"], io["odt"] = tohex(odata), str(odata.dtype)
+    elif k == "scalar":
+        o = odata.dtype.type(odata[1]) if len(odata) > 1 else odata.dtype.type(3)
+        io["odata"], io["odt"] = tohex(np.asarray(o)), str(np.asarray(o).dtype)
+    elif k == "pyint":
+        io["py"] = [10, -7, 3][case.get("_n", 0) % 3]
+    elif k == "pyfloat":
+        io["py"] = [2.5, -0.5][case.get("_n", 0) % 2]
+    return io
+
+
+def check_spec(case, io, mode):
+    sym, order = SPEC[case["dunder"]]
+    if "err" in io:
+        kind, res = numpy_outcome(case, operands_of(case), sym, order)
+        if kind == "err" and res == io["err"]:
+            return None          # numpy rejects this operand pair in the same way: the field operator must too
+        return f"operator raised {io['err']}: {io.get('msg')} (numpy: {kind} {res if kind == 'err' else ''})"
+    kind, want = numpy_outcome(case, io, sym, order)
+    if kind == "err":
+        return f"numpy raises {want} but the field operator returned a value"
     if not same(io["res"], want):
         return f"result differs from numpy {sym}{order}: got {io['res']} want {want}"
     if any(r["cls"] != "NumericMemField" for r in io["res"]):
@@ -262,22 +306,16 @@ def check_spec(case, io, mode):
 
 
 def compare(case, io, mo, mode):
-    if "err" in io and "err" in mo:
-        return None
     if "err" in mo:
-        return f"model: {mo['err']}, impl returned a value"
+        return None if "err" in io else f"model: {mo['err']}, impl returned a value"
+    sym, order = mo["ok"]["sym"], mo["ok"]["ord"]
     if "err" in io:
-        # numpy may legitimately reject the operand pair; then the spec check decides
-        try:
-            return None if False else _numpy_rejects(case, io, mo)
-        except Exception:
-            return None
-    want = numpy_apply(io, mo["ok"]["sym"], mo["ok"]["ord"])
+        kind, res = numpy_outcome(case, operands_of(case), sym, order)
+        return None if (kind == "err" and res == io["err"]) else f"impl raised {io['err']} ({io.get('msg')}), model-resolved numpy call: {kind}"
+    kind, want = numpy_outcome(case, io, sym, order)
+    if kind == "err":
+        return f"model-resolved numpy call raises {want}, impl returned a value"
     return None if same(io["res"], want) else f"impl {io['res']} vs model-resolved {mo['ok']} -> {want}"
-
-
-def _numpy_rejects(case, io, mo):
-    return f"impl raised {io['err']} ({io.get('msg')})"
 
 
 def to_model(case):
